@@ -76,7 +76,7 @@ class HistoryMachine(RuleBasedStateMachine):
         return self.U[ki % len(self.U)]
 
     def do(self, step):
-        if self.DRAWS is not None and self.world.kind in ("log16", "log8") and "draws" not in step and step["op"] not in ("merge", "save_load", "query", "bad_query"):
+        if self.DRAWS is not None and self.world.kind in ("log16", "log8") and "draws" not in step and step["op"] not in ("merge", "save_load", "query", "bad_query", "copy"):
             raise AssertionError("log step without draws")
         self.trace["steps"].append(step)
         try:
@@ -144,6 +144,10 @@ class HistoryMachine(RuleBasedStateMachine):
         if i == j and not self.SELF_MERGE:
             j = (i + 1) % self.N
         self.do({"op": "merge", "i": i, "j": j})
+
+    @rule(i=SK, how=st.sampled_from(["deepcopy", "pickle"]))
+    def copy_sketch(self, i, how):
+        self.do({"op": "copy", "i": i % self.N, "how": how})
 
     @precondition(lambda self: self.SAVELOAD)
     @rule(i=SK, via=st.sampled_from(["class", "module"]), shm=st.sampled_from([False, False, False, True]), slot=st.sampled_from([None, None, 0, 0, 1]))
